@@ -11,6 +11,7 @@
 mod cx;
 mod determinism;
 mod fsplan;
+mod isolate;
 mod lsp;
 mod session;
 mod sysfault;
@@ -127,7 +128,7 @@ fn run_session_enum(base: &session::SessionCase, tag: u64) -> RunReport {
         }
     }
     let base = &base;
-    let clean = session::run(base, tag);
+    let clean = session_in_child(base, tag, "C19");
     let mut rep = RunReport { sub_runs: 1, ..Default::default() };
     let mut counters: BTreeMap<String, u64> = BTreeMap::new();
     let mut log: Vec<u8> = clean.log.clone();
@@ -194,7 +195,7 @@ fn run_session_enum(base: &session::SessionCase, tag: u64) -> RunReport {
             c.steps.insert(pos + 1, Step::Restart { garbage: vec![] });
         }
         c.steps.push(Step::Compile { fault: None, sys: None });
-        let o = session::run(&c, tag);
+        let o = session_in_child(&c, tag, "C19");
         rep.sub_runs += 1;
         *counters.entry(if is_sys { "enumerated_syscall_fault_points" } else { "enumerated_fault_points" }.into()).or_insert(0) += 1;
         if o.faults_fired > 0 {
@@ -256,8 +257,103 @@ fn run_case(scenario: &str, case: &Value) -> RunReport {
     }
 }
 
-/// Executes a case, turning a panic of the code under test into a violation.
+#[derive(serde::Serialize, serde::Deserialize, Default)]
+struct WireViolation {
+    property: String,
+    kind: String,
+    detail: String,
+    step: usize,
+}
+
+#[derive(serde::Serialize, serde::Deserialize, Default)]
+struct WireReport {
+    counters: Vec<(String, u64)>,
+    loghash: u64,
+    nontrivial: bool,
+    sub_runs: u64,
+    sim_time_ms: u64,
+}
+
+#[derive(serde::Serialize, serde::Deserialize, Default)]
+struct WireSession {
+    violations: Vec<WireViolation>,
+    counters: Vec<(String, u64)>,
+    log: Vec<u8>,
+    compiles_ok: u64,
+    compiles_err: u64,
+    faults_fired: u64,
+    recovered_after_fault: u64,
+    op_counts: Vec<usize>,
+    sys_logs: Vec<String>,
+}
+
+fn leak(s: String) -> &'static str {
+    Box::leak(s.into_boxed_str())
+}
+
+/// One session history in a forked child (see isolate.rs); a panic or an abnormal end of the
+/// child is a violation of the scenario's property.
+fn session_in_child(case: &session::SessionCase, tag: u64, property: &'static str) -> session::Outcome {
+    let c = case.clone();
+    let wire = isolate::in_child(move || {
+        LAST_PANIC.with(|p| p.borrow_mut().clear());
+        match catch_unwind(AssertUnwindSafe(|| session::run(&c, tag))) {
+            Ok(o) => WireSession {
+                violations: o.violations.iter().map(|v| WireViolation { property: v.property.into(), kind: v.kind.into(), detail: v.detail.clone(), step: v.step }).collect(),
+                counters: o.counters,
+                log: o.log,
+                compiles_ok: o.compiles_ok,
+                compiles_err: o.compiles_err,
+                faults_fired: o.faults_fired,
+                recovered_after_fault: o.recovered_after_fault,
+                op_counts: o.op_counts,
+                sys_logs: o.sys_logs,
+            },
+            Err(_) => {
+                cx::clear_hooks();
+                let _ = std::env::set_current_dir("/");
+                let _ = std::fs::remove_dir_all(world::scratch_base().join(format!("{tag:016x}")));
+                let msg = LAST_PANIC.with(|p| p.borrow().clone());
+                WireSession { violations: vec![WireViolation { property: property.into(), kind: "panic".into(), detail: msg, step: 0 }], ..Default::default() }
+            }
+        }
+    });
+    let w = wire.unwrap_or_else(|status| WireSession { violations: vec![WireViolation { property: property.into(), kind: "crash".into(), detail: status, step: 0 }], ..Default::default() });
+    session::Outcome {
+        violations: w.violations.into_iter().map(|v| Violation { property: leak(v.property), kind: leak(v.kind), detail: v.detail, step: v.step }).collect(),
+        counters: w.counters,
+        log: w.log,
+        compiles_ok: w.compiles_ok,
+        compiles_err: w.compiles_err,
+        faults_fired: w.faults_fired,
+        recovered_after_fault: w.recovered_after_fault,
+        op_counts: w.op_counts,
+        sys_logs: w.sys_logs,
+    }
+}
+
+/// Executes a case in a forked child (see isolate.rs), turning a panic or a crash of the code
+/// under test into a violation. `session_enum` orchestrates its sub-runs from the worker and
+/// forks one child per sub-run.
 fn exec(scenario: &str, case: &Value) -> (Vec<Value>, Option<RunReport>) {
+    if scenario == "session_enum" {
+        return exec_here(scenario, case);
+    }
+    let (sc, cs) = (scenario.to_string(), case.clone());
+    let answer = isolate::in_child(move || {
+        let (v, rep) = exec_here(&sc, &cs);
+        (v, rep.map(|r| WireReport { counters: r.counters, loghash: r.loghash, nontrivial: r.nontrivial, sub_runs: r.sub_runs, sim_time_ms: r.sim_time_ms }))
+    });
+    match answer {
+        Ok((v, rep)) => (v, rep.map(|r| RunReport { violations: vec![], counters: r.counters, loghash: r.loghash, nontrivial: r.nontrivial, sub_runs: r.sub_runs, sim_time_ms: r.sim_time_ms })),
+        Err(status) => {
+            let _ = std::fs::remove_dir_all(world::scratch_base().join(format!("{:016x}", case_tag(case))));
+            (vec![json!({"property": scenario_property_for_panic(scenario), "kind": "crash", "detail": status, "step": -1})], None)
+        }
+    }
+}
+
+fn exec_here(scenario: &str, case: &Value) -> (Vec<Value>, Option<RunReport>) {
     LAST_PANIC.with(|p| p.borrow_mut().clear());
     match catch_unwind(AssertUnwindSafe(|| run_case(scenario, case))) {
         Ok(rep) => {
@@ -278,8 +374,78 @@ fn exec(scenario: &str, case: &Value) -> (Vec<Value>, Option<RunReport>) {
     }
 }
 
+/// Constant warm-up of the process that executes histories (worker, replay, minimiser
+/// candidate): every snippet of the pool is compiled once (alone and with the snippets it
+/// depends on), under every schema and extension variant, and the synthetic names of the
+/// `fsplan` scenario are interned, all in a fixed order. Afterwards every name that can key a
+/// hash map of the code under test (entity, selectable and artifact file names) has the same
+/// intern id in every process, whatever histories ran before; lazily initialised statics are
+/// built as a side effect. Paths and generated strings are not covered: they never key a map
+/// whose iteration order reaches the disk (the selftest watches exactly that).
+fn warm_up(scenario: &str) {
+    use intern::string_key::Intern;
+    use world::EdOp;
+    world::WARM_UP_SCRATCH.store(true, std::sync::atomic::Ordering::Relaxed);
+    let warm = |files: &[(usize, usize)], schema: usize, ext: usize, tag: u64| {
+        let _ = catch_unwind(AssertUnwindSafe(|| {
+            let w = world::World::create(0x7761726d00 + tag);
+            for d in [0usize, 1, 2, 3, 6] {
+                let _ = std::fs::create_dir_all(w.abs(world::DIRS[d]));
+            }
+            for (p, s) in files {
+                w.apply(&EdOp::Write(*p, *s));
+            }
+            w.apply(&EdOp::WriteSchema(schema));
+            w.apply(&EdOp::WriteExt(ext));
+            cx::install_sorted_enumeration();
+            let _ = cx::fresh_view(&w);
+            cx::clear_hooks();
+            let _ = std::env::set_current_dir("/");
+            w.destroy();
+        }));
+    };
+    // every source path of the world, in enumeration order (relative paths are interned too and
+    // key ordered maps)
+    let everywhere: Vec<(usize, usize)> = world::PATHS.iter().enumerate().filter(|(_, p)| p.source && !p.rel.ends_with("Blob.ts")).map(|(i, _)| (i, 11usize)).collect();
+    warm(&everywhere, 0, 0, 99);
+    for i in 0..world::SNIPPETS.len() {
+        // the snippet with the two snippets most others select from (avatar, card)
+        warm(&[(0, i), (1, 0), (2, 3)], 0, 0, i as u64);
+    }
+    let all_valid: Vec<(usize, usize)> = [2usize, 0, 3, 4, 5, 6, 7, 12, 13].iter().enumerate().map(|(k, s)| ([0usize, 1, 2, 3, 4, 5, 6, 7, 8][k], *s)).collect();
+    for schema in 0..world::SCHEMA_VARIANTS.len() {
+        for ext in 0..world::EXT_VARIANTS.len() {
+            warm(&all_valid, schema, ext, 100 + (schema * 10 + ext) as u64);
+        }
+    }
+    for name in fsplan::VOCABULARY {
+        let _ = name.intern();
+    }
+    // a few constant histories of the scenario itself through the full code paths (write
+    // phase, incremental updates, GC, watch loop, language-server handlers): statics that are
+    // initialised lazily on those paths would otherwise be built inside the first history and
+    // shift the per-thread sequence of std hash-map keys for that history only
+    let warm_scenarios: &[&str] = match scenario {
+        "session_clean" | "session_faults" | "session_enum" => &["session_clean", "session_faults"],
+        "fsplan" => &["fsplan"],
+        "watch" => &["session_clean", "watch"],
+        "lsp" => &["session_clean", "lsp"],
+        _ => &[],
+    };
+    for sc in warm_scenarios {
+        for k in 1..=6u64 {
+            let case = generate_case(sc, derive_seed(0x7761726d ^ salt(sc), k));
+            let (sc, case) = (sc.to_string(), case);
+            let _ = isolate::on_fresh_thread(move || exec_here(&sc, &case).0);
+        }
+    }
+    let _ = std::fs::remove_dir_all(world::scratch_base());
+    world::WARM_UP_SCRATCH.store(false, std::sync::atomic::Ordering::Relaxed);
+}
+
 fn worker(args: &[String]) {
     let scenario = arg_value(args, "--scenario").unwrap_or_default();
+    warm_up(&scenario);
     let base = arg_u64(args, "--base", 0);
     let start = arg_u64(args, "--start", 0);
     let count = arg_u64(args, "--count", 0);
@@ -338,6 +504,7 @@ fn exec_json() {
     std::io::stdin().read_to_string(&mut text).ok();
     let v: Value = serde_json::from_str(&text).unwrap_or_else(|e| simcore::harness_error(&format!("exec-json: {e}")));
     let scenario = v["scenario"].as_str().unwrap_or("").to_string();
+    warm_up(&scenario);
     let (violations, rep) = exec(&scenario, &v["case"]);
     println!("{}", json!({"violations": violations, "loghash": rep.map(|r| format!("{:016x}", r.loghash))}));
 }
@@ -421,17 +588,17 @@ struct Plan {
 fn plan_for(property: &str, tier: &str) -> Plan {
     let t = |q: u64, th: u64| if tier == "thorough" { th } else { q };
     match property {
-        "C17" => Plan { scenarios: vec![("session_clean", t(6_000, 600_000))], level: "exploration",
+        "C17" => Plan { scenarios: vec![("session_clean", t(20_000, 600_000))], level: "exploration",
             rule: "one case = capacity + a history of editor ops on a small project (valid / invalid snippets, schema and extension variants), compiles, process restarts (with stray content written into the artifact directory) and GCs; around every compile that reports diagnostics without an injected fault, seam H3 must have seen no file-system operation and the before/after snapshots of the artifact tree (paths and bytes) must be equal. Non-trivial: at least one successful and one failing compile (or two successful ones) in the run. Distinct = distinct case hash." },
         "C18" => Plan { scenarios: vec![("session_clean", t(5_000, 400_000)), ("fsplan", t(30_000, 3_000_000))], level: "exploration",
             rule: "session runs as in C17: after every successful unfaulted compile the artifact tree must equal that compile's artifact map exactly (files, bytes, no directory without an artifact below it), for the first compile of a session whatever the directory held, and later compiles of a session must not write a file whose content did not change; an unfaulted compile that fails in the write phase is a violation. fsplan runs: seeded sequences of synthetic artifact sets (root only, nested only, mixed, empty, entities/selectables/files added and removed, equal and changed contents) through the real planner and writer with restarts and prior garbage. Non-trivial: session as C17; fsplan = the run saw both a DeleteDirectory and a DeleteFile from the diff path. Distinct = distinct case hash." },
         "C19" => Plan { scenarios: vec![("session_enum", t(32, 3_000)), ("session_faults", t(4_000, 300_000))], level: "fault_enumeration",
             rule: "enumeration: for each seeded base history, every operation index of every compile x 9 fault kinds (EIO/ENOSPC/EACCES before the op, op applied then error, torn write, partial directory removal, kill before/after/torn) x {same session, process restart}, each followed by a clean compile: if that compile succeeds the artifact tree must equal its artifact map. Sampling: seeded histories with faults at random operation indices, followed by edits and further compiles. evaluations counts executed histories (sub-runs). Non-trivial: a fault fired (enumeration: the base history had at least one write phase). Distinct = distinct base case hash." },
-        "C20" => Plan { scenarios: vec![("watch", t(3_000, 300_000))], level: "exploration",
+        "C20" => Plan { scenarios: vec![("watch", t(10_000, 300_000))], level: "exploration",
             rule: "one case = initial project + a history of editor operations (create/modify/delete/rename files incl. non-source and binary files, mkdir, recursive rmdir, rename folder, schema and extension edits), flushes of the debouncer and GCs; the kernel->notify mapping is a stub calibrated against inotify, the debouncer is notify-debouncer-full's own data structure fed with simulated time, categorisation and the watch loop are the real code (seams H5/H6). At each quiescent point the loop's artifacts/diagnostics and the artifact directory must equal a fresh batch compile of the tree, and the loop must still be running. Non-trivial: at least two processed batches and a folder-level event or a batch categorised before a later edit. Distinct = distinct case hash." },
         "C14" => Plan { scenarios: vec![("determinism", t(300, 30_000))], level: "exploration",
             rule: "one case = a project state (seeded files from the pool, or a checked-in demo project) compiled in 4-6 configurations that differ in hash seed (getrandom seam), directory enumeration permutation (seam H7) and content-preserving re-layouts (rename files, move between folders) which change discovery and interning order; every configuration runs in a fresh process; artifact maps (and diagnostics, for configurations that share file names) must be identical. Non-trivial: the project compiles to artifacts or to >= 2 diagnostics. Distinct = distinct case hash." },
-        "C21" => Plan { scenarios: vec![("lsp", t(3_000, 300_000))], level: "exploration",
+        "C21" => Plan { scenarios: vec![("lsp", t(15_000, 300_000))], level: "exploration",
             rule: "one case = project + a history of didOpen/didChange/didClose notifications, on-disk edits delivered as file-system batches, diagnostics computations and requests (semantic tokens, formatting, hover, definition); the select! loop is replaced by the driver choosing one ready arm per step, handlers and state are the real code. At quiescent points and for every request the answers and the effective diagnostics must equal those of a freshly started server on the same disk tree with the same open buffers. Non-trivial: a buffer was opened after diagnostics were first computed, or a buffer differs from disk. Distinct = distinct case hash." },
         _ => simcore::harness_error("unknown property for sim_world"),
     }
@@ -458,8 +625,10 @@ fn run(args: &[String]) -> i32 {
         let block = match *scenario {
             "session_enum" => 1,
             "determinism" => 4,
-            "fsplan" => if tier == "thorough" { 5000 } else { 500 },
-            _ => if tier == "thorough" { 1000 } else { 100 },
+            // every worker process pays a constant warm-up (about 50 compiles), so blocks are
+            // large: two blocks per worker
+            "fsplan" => if tier == "thorough" { 5000 } else { (runs / (2 * workers as u64)).clamp(200, 5000) },
+            _ => if tier == "thorough" { 1000 } else { (runs / (2 * workers as u64)).clamp(50, 1000) },
         };
         let cfg = BatchConfig {
             exe: std::env::current_exe().unwrap(),
@@ -633,6 +802,27 @@ fn selftest(args: &[String]) -> i32 {
         let diff = maps[0].iter().filter(|(k, v)| maps[1].get(k) != Some(v)).count();
         println!("selftest scenario={scenario} runs={runs} compared={} mismatches={diff}", maps[0].len().min(maps[1].len()));
         if diff > 0 || maps[0].len() != runs as usize || maps[1].len() != runs as usize {
+            bad += 1;
+        }
+        // cross-check against exact isolation: the same runs, each in a forked child that starts
+        // from the warmed-up state (SIM_FORK=1, see isolate.rs)
+        let fork_runs = runs.min(if scenario == "determinism" { 10 } else { 150 });
+        let mut env = determinism::worker_env();
+        env.push(("SIM_FORK".into(), "1".into()));
+        let cfg = BatchConfig {
+            exe: std::env::current_exe().unwrap(),
+            worker_args: vec!["worker".into(), "--scenario".into(), scenario.into(), "--base".into(), "7".into(), "--loghash".into()],
+            total_runs: fork_runs,
+            block: 10,
+            workers: 16,
+            max_wall_s: 0.0,
+            max_violations: usize::MAX,
+            env,
+        };
+        let forked = runner::run_batch(&cfg).loghashes;
+        let fdiff = forked.iter().filter(|(k, v)| maps[0].get(k) != Some(v)).count();
+        println!("selftest scenario={scenario} forked-child cross-check runs={} mismatches={fdiff}", forked.len());
+        if fdiff > 0 || forked.len() != fork_runs as usize {
             bad += 1;
         }
     }
